@@ -68,12 +68,13 @@
 
 using namespace TasGrid;
 
-static const int NUM_OUT = 2;
+static const int NUM_OUT = 3;   // different from the number of inputs (2): a swap of the points / values sections of a checkpoint must be visible
 static void fmodel(const double *x, int dims, double *y) {
     double s = 0.0, p = 1.0;
     for (int j = 0; j < dims; j++) { s += (j + 1) * x[j]; p *= (1.0 + 0.5 * x[j] * x[j]); }
     y[0] = std::exp(-0.5 * s * s) + 0.25 * x[0];
     y[1] = p + std::sin(2.0 * s);
+    y[2] = 0.5 * p - std::cos(s) + 0.125 * x[dims - 1];
 }
 
 static double grid_maxerr(TasmanianSparseGrid &g) {
